@@ -404,6 +404,8 @@ type C05Multi struct {
 	Shape []int    `json:"shape"`
 	Ls    []Layout `json:"layouts"`
 	Rev   bool     `json:"rev"`
+	// Forms: for a vector of n elements, the shape each tensor gives it: 0 (n), 1 (n,1), 2 (1,n)
+	Forms []int `json:"forms,omitempty"`
 }
 
 func init() { register("C05.multi", func() Case { return &C05Multi{} }) }
@@ -412,15 +414,28 @@ func (c *C05Multi) NTKey() string {
 	if nonUnit(c.Shape) < 2 {
 		return ""
 	}
-	return fmt.Sprintf("%v|%v|%v", c.Shape, c.Ls, c.Rev)
+	return fmt.Sprintf("%v|%v|%v|%v", c.Shape, c.Ls, c.Rev, c.Forms)
 }
 
 func (c *C05Multi) Run() string {
 	var ts []tensor.DenseTensor
 	var arrs []Arr
 	var windows [][]interface{}
+	var stridesBefore [][]int
 	for i, l := range c.Ls {
-		arr := seqArr(dtInt16, c.Shape, int64(i)*5)
+		shape := c.Shape
+		if i < len(c.Forms) && len(c.Shape) == 1 {
+			switch c.Forms[i] {
+			case 1:
+				shape = []int{c.Shape[0], 1}
+			case 2:
+				shape = []int{1, c.Shape[0]}
+			}
+			if len(shape) != len(c.Shape) {
+				l = Layout{Root: l.Root}
+			}
+		}
+		arr := seqArr(dtInt16, shape, int64(i)*5)
 		b, err := Build(arr, l, nil)
 		if err != nil {
 			return inconclusive
@@ -428,10 +443,12 @@ func (c *C05Multi) Run() string {
 		ts = append(ts, b.T)
 		arrs = append(arrs, arr)
 		windows = append(windows, backingVals(b.T.Data()))
+		stridesBefore = append(stridesBefore, cloneInts(b.T.Strides()))
 	}
 	desc := fmt.Sprintf("multi-iterator over shape %v layouts %v reverse=%v", c.Shape, c.Ls, c.Rev)
 	var msg string
-	pan := try(func() {
+	pass := 0
+	walk := func() {
 		it := tensor.MultIteratorFromDense(ts...)
 		if c.Rev {
 			it.SetReverse()
@@ -457,9 +474,28 @@ func (c *C05Multi) Run() string {
 		if _, err := it.Next(); err == nil {
 			msg = desc + ": Next after exhaustion did not report it"
 		}
+	}
+	pan := try(func() {
+		// twice: building and walking a multi-iterator leaves its operands as they were
+		for pass = 0; pass < 2 && msg == ""; pass++ {
+			walk()
+			for j, t := range ts {
+				if dt := t.(*tensor.Dense); !eqInts(dt.Strides(), stridesBefore[j]) {
+					msg = fmt.Sprintf("%s: after pass %d the strides of operand %d are %v, they were %v", desc, pass, j, dt.Strides(), stridesBefore[j])
+					return
+				}
+				if m := compareAt(t.(*tensor.Dense), arrs[j], bitEqVal); m != "" {
+					msg = fmt.Sprintf("%s: after pass %d operand %d: %s", desc, pass, j, m)
+					return
+				}
+			}
+		}
 	})
 	if pan != "" {
 		return desc + " panicked: " + pan
+	}
+	if msg != "" && pass > 0 {
+		msg = fmt.Sprintf("(pass %d) ", pass) + msg
 	}
 	return msg
 }
